@@ -80,7 +80,7 @@ func init() {
 	parserJudges["C03"] = judgeC03
 	register(&Check{
 		ID:        "C03",
-		QuickSecs: 300, ThoroSecs: 1200,
+		QuickSecs: 900, ThoroSecs: 1200,
 		Rule: "input-space exploration of the real parser: every argv of length <= L over a 21-token alphabet (positionals, empty string, lonesome dash, terminator, known/unknown long, short and bundled options, attached and detached values, multi-value string / int / map options with optional further values, an optional-value option with and without attached value, command names) " +
 			"in all 18 mode x unknown-mode x require-order configurations plus 36 in which the command, or only its sub-command, sets a different unknown-mode than the root, and 6 in which that sub-command is the only command that does, plus 9 in which only the command sets require-order; remaining compared (i) model-free as a sub-sequence of the input and (ii) with the reference model; states = argv prefixes visited, transitions = token appends, " +
 			"distinct_nontrivial = distinct (configuration, argv) cases inside the specified territory (every enumerated case is distinct by construction)",
@@ -94,7 +94,7 @@ func init() {
 			// options only the command knows, given before the command name, alone and bundled with an unknown letter;
 			// the help option (HelpCommand) in the middle of a command line; dashes directly followed by `=`;
 			// a bundle whose valued letter is not the last one
-			ext := []string{"-dz", "--d", "-zd", "--help", "-=5", "--=x", "-sa", "-sz", "w", "--o=x", "--o"}
+			ext := []string{"-dz", "--d", "-zd", "--help", "-=5", "--=x", "-sa", "-sz", "w", "--o=x", "--o", "-oz", "-5"} // ... a bundle whose optional-value letter is followed by an unknown one; an all-digit single-dash token
 			defs := configs(defC03, []bool{false, true})
 			// the command sets an unknown-mode of its own (SetUnknownMode after NewCommand)
 			for _, d := range configs(defC03, []bool{false}) {
